@@ -35,6 +35,10 @@ ATOMS = {
     "!z": ("sub", False, [], cat(I(0), W("?eq"))),
     "never": ("sub", False, [], cat()),
     "id": cat(),
+    # identities that route the value through sequences: a literal `[]` stored in the query and a sequence that
+    # has another live copy are the LEFT operand of `add` (which must not modify its operands)
+    "app": ("par", ["A"], cat(("elist",), ("cap", [], ("rd", "A")), W("add"), W("elem"))),
+    "app2": ("par", ["A"], cat(("cap", [], ("rd", "A")), ("par", ["S"], cat(("rd", "S"), ("cap", [], cat(("rd", "A"), I(1), W("add"), I(K), W("mod"))), W("add"), W("drop"), ("rd", "S"))), W("elem"))),
 }
 
 
